@@ -118,7 +118,7 @@ def run(scratch, pid, tier, seed, validate):
         if pr is None:
             raise Infra("no concurrent section recorded for ME scenario " + n)
         profs[n] = pr
-    maxpre, limit = (2, 60) if tier == "quick" else (3, 1500)
+    maxpre, limit = (2, 60) if tier == "quick" else (4, 4000)
     with ThreadPoolExecutor(max_workers=8) as ex:
         res = list(ex.map(lambda n: conc.schedules(scratch, "me-" + n, profs[n], maxpre, limit, seed), names))
     scripts, stats = [], []
